@@ -13,6 +13,9 @@ import ast
 
 from .. import analysis
 from ..astutil import calls_in, call_name, where
+from ..cfg import build_cfg
+from ..dataflow import private_closure
+from ..symtext import Expander, effect_calls, strip_order_keeping
 from ..model import AnalysisError, unparse, walk_no_nested
 from . import common_tables as ct
 from .rules_merge import pure_footprint, strict_forwarded, merge_adds_clones
@@ -95,18 +98,40 @@ def run(prog, rep):
     rep.rule("FIN-1", "Document.finalize loops over self.itersections(recursive=True) and re-assigns link / include through "
                       "the property setters under `is not None` guards")
     fin = prog.func("doc.BaseDocument.finalize")
-    loops = [n for n in walk_no_nested(fin.node) if isinstance(n, ast.For)]
-    good = len(loops) == 1 and isinstance(loops[0].iter, ast.Call) and call_name(loops[0].iter) == "%s.itersections" % fin.params[0]
+    fg = build_cfg(fin)
+    fx = Expander(fin, fg)
+    loops = [n for n in fg.nodes if n.kind == "for" and isinstance(strip_order_keeping(n.ast.iter)[0], ast.Call)
+             and unparse(strip_order_keeping(n.ast.iter)[0].func) == "%s.itersections" % fin.params[0]]
+    good = len(loops) == 1
     rep.check(good, "FIN-1", "finalize iterates all Sections", "self.itersections(...)", "finalize does not iterate self.itersections()", fin.where,
               witness="a link deeper in the tree is never resolved")
     if good:
-        v = unparse(loops[0].target)
+        itcall = strip_order_keeping(loops[0].ast.iter)[0]
+        each = "EACH(%s)" % fx.text(itcall, loops[0])
+        # stores through the setters, read with helpers inlined: (<each>.link = <each>._link) and the same for include
+        stores = {}
+        for h in private_closure(fin):
+            hg = build_cfg(h)
+            for n in hg.nodes:
+                if n.kind == "stmt" and isinstance(n.ast, ast.Assign) and isinstance(n.ast.targets[0], ast.Attribute) \
+                        and n.ast.targets[0].attr in ("link", "include"):
+                    stores.setdefault(n.ast.targets[0].attr, []).append((h, n))
         for attr in ("link", "include"):
-            sts = [n for n in ast.walk(loops[0]) if isinstance(n, ast.Assign) and unparse(n.targets[0]) == "%s.%s" % (v, attr)]
-            ok = len(sts) == 1 and unparse(sts[0].value) == "%s._%s" % (v, attr)
-            rep.check(ok, "FIN-1", "finalize resolves %s through the setter" % attr, "%s.%s = %s._%s" % (v, attr, v, attr),
-                      "finalize does not re-assign %s.%s from its stored value" % (v, attr), fin.where)
-        depth_kw = [k for k in loops[0].iter.keywords if k.arg == "max_depth"]
+            sts = stores.get(attr, [])
+            ok = len(sts) == 1
+            if ok:
+                h, n = sts[0]
+                tv, vv = unparse(n.ast.targets[0].value), unparse(n.ast.value)
+                ok = vv == "%s._%s" % (tv, attr)
+                if h is fin:
+                    ok = ok and Expander(fin, fg).text(n.ast.targets[0].value, n) == each
+                else:
+                    # the helper is applied to the loop element
+                    calls = [e for e in effect_calls(prog, fin, lambda c, h=h: isinstance(c.func, ast.Attribute) and c.func.attr == h.name)]
+                    ok = ok and len(calls) == 1 and any(unparse(a0) == each for a0 in calls[0].call.args) and tv in h.params
+            rep.check(ok, "FIN-1", "finalize resolves %s through the setter" % attr, "<section>.%s = <section>._%s for every Section" % (attr, attr),
+                      "finalize does not re-assign <section>.%s from its stored value for the visited Section" % attr, fin.where)
+        depth_kw = [k for k in itcall.keywords if k.arg == "max_depth"]
         rep.check(not depth_kw, "FIN-1", "finalize does not limit the depth", "ok", "finalize limits the traversal depth", fin.where)
 
     # ----------------------------------------------------------------- TAB-5 (link / include persisted)
